@@ -192,3 +192,35 @@ def _(I, cls, args, kwargs):
         f.ghost["promise"] = pr
     I.ctx.emit("loop.create_future", f)
     return f
+
+
+# zigpy value wrappers applied to opaque values (KeyData(x), EUI64(x)): the same value, of that wire type
+import zigpy.state as _zstate
+import zigpy.types as _zt
+
+
+def _value_wrapper(I, cls, args, kwargs):
+    from pyvc.interp import PyRaise
+    from pyvc.values import Opaque
+
+    from pyvc.values import SOpt
+
+    if len(args) == 1 and isinstance(args[0], SOpt):
+        args = [I.unwrap_opt(args[0], "wire value")]
+    if len(args) == 1 and isinstance(args[0], Opaque):
+        return args[0]
+    try:
+        return cls(*args, **kwargs)
+    except Exception as e:
+        raise PyRaise(e)
+
+
+constructor(_zt.KeyData)(_value_wrapper)
+constructor(_zt.EUI64)(_value_wrapper)
+
+
+@constructor(_zstate.Key)
+def _(I, cls, args, kwargs):
+    from pyvc.calls import construct_dataclass
+
+    return construct_dataclass(I, cls, args, kwargs)
